@@ -746,17 +746,20 @@ class Path:
         return Path(new_t)
 
     def __repr__(self):
-        return _format_path(self.path_t.__ops__[1:])
+        return _format_path(self.path_t.__ops__[1:], self.path_t.__ops__[0])
 
 
-def _format_path(t_path):
+def _format_path(t_path, root=None):
+    root = T if root is None else root
     path_parts, cur_t_path = [], []
+    # a root other than T can only be written as (the start of) the first part
+    first_root = root if root is not T else None
     i = 0
     while i < len(t_path):
         op, arg = t_path[i], t_path[i + 1]
         i += 2
         if op == 'P':
-            if cur_t_path:
+            if cur_t_path or (first_root is not None and not path_parts):
                 path_parts.append(cur_t_path)
                 cur_t_path = []
             path_parts.append(arg)
@@ -767,10 +770,12 @@ def _format_path(t_path):
         path_parts.append(cur_t_path)
 
     if path_parts or not cur_t_path:
-        return 'Path(%s)' % ', '.join([_format_t(part)
+        if not path_parts and first_root is not None:
+            path_parts.append([])
+        return 'Path(%s)' % ', '.join([_format_t(part, root if n == 0 else T)
                                        if type(part) is list else repr(part)
-                                       for part in path_parts])
-    return _format_t(cur_t_path)
+                                       for n, part in enumerate(path_parts)])
+    return _format_t(cur_t_path, root)
 
 
 class Spec:
@@ -1752,7 +1757,7 @@ def _format_t(path, root=T):
             args, kwargs = arg
             prepr.append(format_invocation(args=args, kwargs=kwargs, repr=bbrepr))
         elif op == 'P':
-            return _format_path(path)
+            return _format_path(path, root)
         elif op == 'x':
             prepr.append(".__star__()")
         elif op == 'X':
